@@ -116,7 +116,7 @@ class Runner:
                 "lib_panic": bool(ref.get("panic")),
                 "gens": gens or {"none": {"none": ""}}}
 
-    def call(self, op, text, langs=(), dirshape="rel"):
+    def call(self, op, text, langs=(), dirshape="rel", gens=None):
         n = self.nxt()
         wd = os.path.join(self.tmp, "w%d" % n)
         os.makedirs(wd)
@@ -159,6 +159,9 @@ class Runner:
                     dirs[l] = os.path.join("o", l)
                     os.makedirs(os.path.join(wd, dirs[l]))
                     write(os.path.join(wd, dirs[l], "stale.txt"), "stale")
+                elif dirshape == "shared":
+                    # every requested target writes into ONE directory
+                    dirs[l] = os.path.join("o", "all")
                 else:
                     dirs[l] = os.path.join("o", l)
             args = [self.cli] + (["compile"] if op == "compile-word" else []) + ["-f", "in.dsl"]
@@ -169,7 +172,20 @@ class Runner:
             e["exit"] = r.returncode
             tree = {}
             nfiles = 0
-            for l in langs:
+            if dirshape == "shared" and langs:
+                # one directory holds the union: each target's share is what the generators say it owns; a file
+                # nobody owns is charged to the first target (its tree then differs)
+                whole = tree_of(os.path.join(wd, "o", "all"))
+                nfiles = len(whole)
+                owned = set()
+                for l in langs:
+                    exp = (gens or {}).get(l) or {}
+                    tree[l] = {f: whole[f] for f in exp if f in whole} or {"none": ""}
+                    owned |= set(exp)
+                stray = {"stray:" + f: h for f, h in whole.items() if f not in owned}
+                if stray:
+                    tree[langs[0]] = dict(tree[langs[0]], **stray)
+            for l in (langs if dirshape != "shared" else ()):
                 t = tree_of(os.path.join(wd, dirs[l]))
                 t.pop("stale.txt", None)
                 nfiles += len(t)
@@ -238,8 +254,8 @@ def check_c16(tier):
         for name in ("valid1", "valid2", "special"):
             for i, sub in enumerate(subsets if name != "special" else subsets[::5]):
                 for word in (False, True):
-                    shape = ["rel", "abs", "nested", "existing", "subcmd"][(i + int(word)) % 5] if not thorough else None
-                    for sh in ([shape] if shape else ["rel", "abs", "nested", "existing", "subcmd"]):
+                    shape = ["rel", "abs", "nested", "existing", "subcmd", "shared"][(i + int(word)) % 6] if not thorough else None
+                    for sh in ([shape] if shape else ["rel", "abs", "nested", "existing", "subcmd", "shared"]):
                         jobs.append(("compile", (name, sub, word, sh)))
         # 3. format entry points on more texts: comment variants and invalid mutations
         extra = []
@@ -279,7 +295,7 @@ def check_c16(tier):
                 name, sub, word, sh = arg
                 t = concrete[name]
                 d = R.doc_event(t, True)
-                e, site = R.call("compile-word" if word else "compile-implicit", t, langs=sub, dirshape=sh)
+                e, site = R.call("compile-word" if word else "compile-implicit", t, langs=sub, dirshape=sh, gens=d.get("gens"))
                 out.append((d, e, site, "compile:%s:%s:%s" % (",".join(sub), "word" if word else "implicit", sh), name))
             else:
                 label, t = arg
@@ -346,6 +362,10 @@ def c11_inputs(thorough, rnd):
         "options-empty": "options {\n}\nroot packet P { u8 a, }\n",
         "meta-no-doc": "MetaData M { u8 a, }\nroot packet P { a, }\n",
         "meta-ref-no-doc": "MetaData M { u8 a `d`, a b, }\nroot packet P { b, }\n",
+        # a MetaData entry that refers to an entry that does not exist (or comes later), used by a field
+        "meta-ref-undeclared": "MetaData M { Nope b `d`, }\nroot packet P { b, u8 x, }\n",
+        "meta-ref-forward": "MetaData M { a b `d`, u8 a `d`, }\nroot packet P { b, a, }\n",
+        "meta-ref-undeclared-len": "MetaData M { Nope L `d`, }\nroot packet P { L @lengthOf(B), B, }\npacket B { u8 x, }\n",
         "pad-no-char": "root packet P { @leftPad() char[3] x, }\n",
         "pad-on-scalar": "root packet P { @leftPad('0') u8 x, }\n",
         "pad-on-string": "root packet P { @rightPad(' ') string x, }\n",
